@@ -112,10 +112,15 @@ func runSwitch(r *Run, concurrent bool) {
 		}
 		forced["play.example.com"] = fl
 	}
-	hostSpell := []string{"play.example.com", "Play.Example.COM", "other.example.org", "play.example.com\x00FML\x00", "play.example.com///10.1.2.3:4711///1700000000", "PLAY.example.com\x00FML2\x00"}[r.W.Pick(6)]
+	hostSpell := []string{"play.example.com", "Play.Example.COM", "other.example.org", "play.example.com\x00FML\x00", "play.example.com///10.1.2.3:4711///1700000000", "PLAY.example.com\x00FML2\x00",
+		// a Forge client coming through TCPShield carries both suffixes
+		"play.example.com///203.0.113.7:51234///1700000000\x00FML2\x00", "Play.example.com///203.0.113.7:51234///1700000000\x00FML\x00"}[r.W.Pick(8)]
 	prot := pickProtocol(r)
 	if strings.Contains(hostSpell, "FML2") && prot < 393 {
-		hostSpell = "play.example.com"
+		hostSpell = strings.Replace(hostSpell, "FML2", "FML", 1)
+	}
+	if strings.HasSuffix(hostSpell, "\x00FML\x00") && prot >= 393 {
+		hostSpell = strings.Replace(hostSpell, "\x00FML\x00", "\x00FML2\x00", 1)
 	}
 	w := newClassic(r, all, func(cfg *config.Config) {
 		cfg.Try = try
@@ -143,6 +148,9 @@ func runSwitch(r *Run, concurrent bool) {
 		}
 		return b
 	}
+	// "staggered" (set further down): exactly two requests, the second issued while the first
+	// one's dial to a slow but healthy backend is visibly under way
+	staggered, staggerActive, slowTarget := false, false, ""
 	plans := map[string][]backendBehavior{}
 	for _, n := range all {
 		for i := 0; i < 8; i++ {
@@ -150,6 +158,12 @@ func runSwitch(r *Run, concurrent bool) {
 		}
 		n := n
 		w.backends[n].NextBeh = func(k int) backendBehavior {
+			if staggered && staggerActive {
+				if n == slowTarget {
+					return backendBehavior{Compression: -1, DialDelay: 300 * time.Millisecond}
+				}
+				return backendBehavior{Compression: -1}
+			}
 			if k < len(plans[n]) {
 				return plans[n][k]
 			}
@@ -192,6 +206,7 @@ func runSwitch(r *Run, concurrent bool) {
 	}
 
 	seqVariant := concurrent && r.W.Pick(2) == 0 // requests strictly one after another
+	staggered = concurrent && !seqVariant && r.W.Pick(4) == 0
 	if concurrent {
 		if seqVariant {
 			r.Res.Variant = "sequential"
@@ -233,6 +248,68 @@ func runSwitch(r *Run, concurrent bool) {
 		phaseBStarted = true
 		pl := w.p.PlayerByName("Switcher")
 		if pl == nil {
+			return
+		}
+		if staggered {
+			r.Res.Variant = "staggered"
+			cur := ""
+			if cs := pl.CurrentServer(); cs != nil {
+				cur = cs.Server().ServerInfo().Name()
+			}
+			var others []string
+			for _, n := range all {
+				if n != cur {
+					others = append(others, n)
+				}
+			}
+			slowTarget = others[0]
+			otherTarget := others[1]
+			staggerActive = true
+			nActors = 2
+			dialsBefore := len(w.dialLog)
+			connect := func(t string) {
+				defer func() { actorsDone++ }()
+				rec := &reqRec{target: t, inv: w.nextSeq(), gid: simrt.CurrentGID()}
+				reqs = append(reqs, rec)
+				r.Op("connect:" + t)
+				ctx, cancel := context.WithTimeout(context.Background(), 5*time.Second)
+				res, err := pl.CreateConnectionRequest(w.p.Server(t)).Connect(ctx)
+				cancel()
+				rec.err = err
+				if err == nil && res != nil {
+					rec.status = res.Status()
+					rec.ok = res.Status().Successful()
+				}
+				rec.ret = w.nextSeq()
+			}
+			simrt.Go(func() { connect(slowTarget) })
+			simrt.Go(func() {
+				for i := 0; len(w.dialLog) == dialsBefore && i < 400; i++ {
+					simrt.Sleep(time.Millisecond, "c16.stagger-wait")
+				}
+				simrt.Sleep(20*time.Millisecond, "c16.stagger")
+				connect(otherTarget)
+			})
+			for actorsDone < nActors && c.Phase != "closed" {
+				simrt.Sleep(20*time.Millisecond, "c16.wait-actors")
+			}
+			simrt.Sleep(300*time.Millisecond, "c16.stay")
+			// the second request found one in flight: reported as such, nothing dialled for it
+			if len(reqs) == 2 && c.Phase != "closed" {
+				second := reqs[1]
+				if reqs[0].target != slowTarget {
+					second = reqs[0]
+				}
+				dialledOther := 0
+				for _, d := range w.dialLog[dialsBefore:] {
+					if d.Server == otherTarget {
+						dialledOther++
+					}
+				}
+				if second.err == nil && (second.status != proxy.InProgressConnectionStatus || dialledOther > 0) {
+					r.Fail("request-during-in-flight-not-reported", "staggered", "a request to %s was issued while the dial to %s was under way: status %v (want in-progress), %d dial(s) to %s; requests %+v", otherTarget, slowTarget, second.status, dialledOther, otherTarget, reqs)
+				}
+			}
 			return
 		}
 		nActors = 1 + r.W.Pick(4)
@@ -328,7 +405,9 @@ func runSwitch(r *Run, concurrent bool) {
 		if inflight > 1 {
 			violated = true
 			sig := "sequential"
-			if !seqVariant {
+			if staggered {
+				sig = "staggered"
+			} else if !seqVariant {
 				sig = "concurrent:overlapping-connect-activities"
 			}
 			r.Fail("two-attempts-in-flight", sig, "the player has %d backend connection attempts in flight at once: %v", inflight, which)
